@@ -64,10 +64,46 @@ M = [
  ('benign-local-rename', 'spydrnet/ir/definition.py', "excluded_ports", "ports_to_drop", [('Definition', 'remove_ports_from', 'method')], None),
 ]
 
+# the other suites: (id, file, old, new, [(cls, name, kind)], expected failing obligation substring | 'DEGRADED' | None, suite)
+M2 = [
+ ('ns-remove-forgets-identifier', 'spydrnet/plugins/namespace_manager/__init__.py', '            if key is None:\n                for key in ["EDIF.identifier", ".NAME"]:',
+  '            if key is None:\n                for key in [".NAME"]:', [('NamespaceManager', 'remove', 'method')], 'C10/NamespaceManager.remove/exit=normal/identifier-table', 'ns'),
+ ('ns-set-skips-legality', 'spydrnet/plugins/namespace_manager/__init__.py', 'if target_policy.is_name_valid(key, value) is False:', 'if target_policy.is_name_valid(key, value) is None:',
+  [('NamespaceManager', 'dictionary_set', 'method')], 'accepted-only-without-conflict-and-legal', 'ns'),
+ ('ns-update-forgets-lower', 'spydrnet/plugins/namespace_manager/edif_namespace.py', '                old_name = element["EDIF.identifier"].lower()\n                if old_name in namespace:\n                    del namespace[old_name]\n            namespace[value.lower()] = element',
+  '                old_name = element["EDIF.identifier"]\n                if old_name in namespace:\n                    del namespace[old_name]\n            namespace[value.lower()] = element',
+  [('EdifNamespace', 'update', 'method')], 'C10/EdifNamespace.update/exit=normal/identifier-table', 'ns'),
+ ('irns-delitem-not-announced', 'spydrnet/ir/first_class_element.py', '        global_callback._call_dictionary_delete(self, key)\n', '',
+  [('Definition', '__delitem__', 'method')], 'Inv_NS.entries-are-children', 'irns'),
+ ('irns-remove-port-not-announced', 'spydrnet/ir/definition.py', '        global_callback._call_definition_remove_port(self, port)\n', '',
+  [('Definition', 'remove_port', 'method')], 'Inv_NS.entries-are-children', 'irns'),
+ ('clone-port-adopts-wrong-owner', 'spydrnet/ir/port.py', '        for p in c._pins:\n            p._port = c\n', '        for p in c._pins:\n            p._port = self\n',
+  [('Port', 'clone', 'method')], 'Port._clone.loop1/preserve/adopted', 'clone'),
+ ('clone-wire-keeps-pins', 'spydrnet/ir/wire.py', '        This will remove all pin pointers and create a floating stand alone instance."""\n        self._pins = []',
+  '        This will remove all pin pointers and create a floating stand alone instance."""\n        pass', [('Wire', 'clone', 'method')], 'C07/Wire.clone/exit=normal/clone-stands-alone', 'clone'),
+ ('clone-instance-skips-refset', 'spydrnet/ir/instance.py', '        if self._reference is not None:\n            self._reference._references.add(self)', '        pass',
+  [('Instance', 'clone', 'method')], 'C07/Instance.clone/exit=normal/Inv.I3.refsets', 'clone'),
+ ('href-valid-ignores-cable', 'spydrnet/util/hierarchical_reference.py', '                if hparent.item != cable:\n                    return False\n', '',
+  [('HRef', 'is_valid', 'getter')], 'HRef.is_valid.loop0/preserve/walk', 'href'),
+ ('edifnames-case-sensitive-scan', 'spydrnet/composers/edif/edifify_names.py', 'element.name.lower() == identifier', 'element.name == identifier',
+  [('EdififyNames', '_conflicts_good', 'method')], 'true-iff-no-sibling-carries-the-identifier-ignoring-case', 'edifnames'),
+ ('vcomposer-counter-skips', 'spydrnet/composers/verilog/composer.py', '                return index + wire.cable.lower_index\n            index += 1', '                return index + wire.cable.lower_index\n            index += 2',
+  [('Composer', '_index_of_wire_in_cable', 'method')], 'preserve/counter-is-position', 'vcomposer'),
+ ('ecomposer-subtracts-base', 'spydrnet/composers/edif/composer.py', '        return val + cable.lower_index', '        return val - cable.lower_index',
+  [('ComposeEdif', '_get_wire_index_', 'method')], 'returns-position-plus-lower-index', 'ecomposer'),
+ ('vparser-lower-index-is-max', 'spydrnet/parsers/verilog/parser.py', '            cable.lower_index = min(left_index, right_index)', '            cable.lower_index = max(left_index, right_index)',
+  [('VerilogParser', 'populate_new_cable', 'method')], 'lower-index-is-the-smaller-bound', 'vparser'),
+ ('compare-direction-tolerant', 'spydrnet/compare/compare_netlists.py', '        assert port_orig.direction == port_composer.direction, (', '        assert port_orig.direction == port_composer.direction or True, (',
+  [('Comparer', 'compare_ports', 'method')], 'directions-equal', 'compare'),
+ ('loop-guard-undeclared-store', 'spydrnet/ir/cable.py', '        for _ in range(wire_count):\n            self.create_wire()', '        for _ in range(wire_count):\n            self.create_wire()\n            self._is_scalar = False',
+  [('Cable', 'create_wires', 'method')], 'DEGRADED', 'ir'),
+ ('benign-ns-local-rename', 'spydrnet/plugins/namespace_manager/__init__.py', 'parent_namespace', 'policy_of_parent', [('NamespaceManager', 'add', 'method')], None, 'ns'),
+ ('benign-clone-extra-local', 'spydrnet/ir/cable.py', '        c = CableExtended()\n        memo[self] = c\n', '        c = CableExtended()\n        fresh = c\n        memo[self] = fresh\n', [('Cable', 'clone', 'method')], None, 'clone'),
+]
+
 
 def main():
     from pyvc import verify
-    from specs.ir_functions import FUNCTIONS
     flt = sys.argv[1] if len(sys.argv) > 1 else ''
     tmp = tempfile.mkdtemp(prefix='pyvc-selftest-')
     ok = True
@@ -75,7 +111,11 @@ def main():
         shutil.copytree(os.path.join(REPO, 'spydrnet'), os.path.join(tmp, 'spydrnet'))
         if os.path.isdir(os.path.join(REPO, 'spydrnet_extension')):
             shutil.copytree(os.path.join(REPO, 'spydrnet_extension'), os.path.join(tmp, 'spydrnet_extension'))
-        for mid, f, old, new, fns, expect in M:
+        import importlib
+        for entry in list(M) + list(M2):
+            mid, f, old, new, fns, expect = entry[:6]
+            suite = entry[6] if len(entry) > 6 else 'ir'
+            FUNCTIONS = importlib.import_module(verify.SUITES[suite]['functions']).FUNCTIONS
             if flt and flt not in mid: continue
             path = os.path.join(tmp, f)
             src = open(path).read()
@@ -85,15 +125,19 @@ def main():
             try:
                 sel = [x for x in FUNCTIONS if (x[0], x[1], x[2]) in fns]
                 t0 = time.time()
-                res = verify.run_all(tmp, sel, per_function_timeout=600)
+                res = verify.run_all(tmp, sel, opts={'suite': suite}, per_function_timeout=900)
                 bad = [o['name'] for r in res for o in r['results'] if o['status'] != 'discharged']
                 deg = [r['function'] for r in res if r.get('degraded') or r.get('error')]
                 if expect is None:
                     good = not bad and not deg
                     print('SELFTEST %-38s %s (benign edit: %d undischarged, degraded=%s) %.0fs' % (mid, 'OK' if good else 'FALSE-ALARM', len(bad), deg, time.time() - t0))
                     if not good: print('      ', bad[:4])
+                elif expect == 'DEGRADED':
+                    good = bool(deg) and not bad
+                    print('SELFTEST %-38s %s (expected the function to leave the subset; degraded=%s, undischarged=%d) %.0fs' % (mid, 'OK' if good else 'MISSED', deg, len(bad), time.time() - t0))
                 else:
                     good = any(expect in b for b in bad)
+                if expect not in (None, 'DEGRADED'):
                     print('SELFTEST %-38s %s (expected %s; failing: %s%s) %.0fs' % (mid, 'OK' if good else 'MISSED', expect, bad[:3], ' degraded=%s' % deg if deg else '', time.time() - t0))
                 ok = ok and good
             finally:
